@@ -188,8 +188,12 @@ class ProcessWorker(Worker):
             result = self.do_work()
             self._comms.child_end.put(((True, result), self._user_state))
         except Exception as e:
-            logger.exception('Exception occurred while running the main function')
-            self._comms.child_end.put(((False, e), self._user_state))
+            try:
+                logger.exception('Exception occurred while running the main function')
+                self._comms.child_end.put(((False, e), self._user_state))
+            except WorkerTerminatedError as e2:
+                # terminate() landed while the target's own failure was being reported: report the termination instead of nothing
+                self._comms.child_end.put(((False, e2), self._user_state))
         finally:
             self._cleanup()
             if self._ctrl_thread.is_alive() and not self._terminate_req:
